@@ -9,10 +9,10 @@ from mc import rgfa
 
 ID = "C19"
 LEVEL = "exploration"
-TECHNIQUE = "bounded-exhaustive enumeration of every record sequence (all multisets in all orders) over a 40-record alphabet through run_stat against the definitions computed independently"
+TECHNIQUE = "bounded-exhaustive enumeration of every record sequence (all multisets in all orders) over a 44-record alphabet through run_stat against the definitions computed independently"
 RULE = (
     "record alphabet: read in {r1, r2} x class in {tp:A:P/mapq 60, tp:A:P/mapq 0, tp:A:S/60, tp:A:I/60, no tp/60} x quality in {(4 matches of 8, "
-    "span 4/16, cg 2=2X2=2D), (8 of 8, span 8/16, cg 8=), (8 of 8, span 16/16, cg 4=4=)} + three records with tp:A after the cg field + one primary record without a CIGAR field = 40 records with dyadic ratios (exact float sums); every sequence of <=N records "
+    "span 4/16, cg 2=2X2=2D), (8 of 8, span 8/16, cg 8=), (8 of 8, span 16/16, cg 4=4=)} + three records with tp:A after the cg field + per read one record with another query length and one without a matching base + one primary record without a CIGAR field = 44 records with dyadic ratios (exact float sums); every sequence of <=N records "
     "(N=3 quick, 4 thorough), with and without --cigar. evaluations = stat runs; non-trivial = files with >=2 records that mix primary and "
     "secondary records or hold several records of one read."
 )
@@ -33,7 +33,7 @@ NSHARD = {"quick": 16, "thorough": 64}
 
 
 def bounds(tier):
-    return {"max_records": 3 if tier == "quick" else 4, "alphabet": 40}
+    return {"max_records": 3 if tier == "quick" else 4, "alphabet": 44}
 
 
 CLASSES = [("P", 60), ("P", 0), ("S", 60), ("I", 60), (None, 60), ("P", 255)]  # 255 = "mapping quality not available": still > 0
@@ -42,7 +42,9 @@ QUALS = [(4, 8, 0, 4, "2=2X2=2D"), (8, 8, 4, 12, "8="), (8, 8, 0, 16, "4=4=")]  
 
 def alphabet():
     out = []
-    for read in ("r1", "#r2"):  # the second read name starts with '#' (not a comment: GAF has no comment lines)
+    # two read names with the same CRC-32 (a table keyed by a 32-bit checksum of the name would merge them); a third
+    # read further down is called '#r2' (not a comment: GAF has no comment lines)
+    for read in ("plumless", "buckeroo"):
         for tp, mapq in CLASSES:
             for matches, block, qs, qe, cg in QUALS:
                 opt = ([f"tp:A:{tp}"] if tp else []) + ["NM:i:0", f"cg:Z:{cg}"]
@@ -50,7 +52,12 @@ def alphabet():
     # the alignment type after the CIGAR (the order of optional fields is free)
     for tp in ("S", "I", "P"):
         matches, block, qs, qe, cg = QUALS[1]
-        out.append(rgfa.Rec("r1", 16, qs, qe, "+", ">s1", 20, 0, 8, matches, block, 60, ["NM:i:0", f"cg:Z:{cg}", f"tp:A:{tp}"]))
+        out.append(rgfa.Rec("plumless", 16, qs, qe, "+", ">s1", 20, 0, 8, matches, block, 60, ["NM:i:0", f"cg:Z:{cg}", f"tp:A:{tp}"]))
+    for read in ("plumless", "buckeroo"):
+        # a primary record of the same read name with another query length (names are cut at the first blank, so parts of one
+        # read share a name): span 8 of 32; and a primary record without a single matching base
+        out.append(rgfa.Rec(read, 32, 0, 8, "+", ">s1", 20, 0, 8, 8, 8, 60, ["tp:A:P", "NM:i:0", "cg:Z:8="]))
+        out.append(rgfa.Rec(read, 16, 0, 8, "+", ">s1", 20, 0, 8, 0, 8, 60, ["tp:A:P", "NM:i:8", "cg:Z:8X"]))
     # a primary record without any CIGAR field
     out.append(rgfa.Rec("#r2", 16, 0, 8, "+", ">s1", 20, 0, 8, 8, 8, 60, ["tp:A:P", "NM:i:0"]))
     return out
